@@ -85,7 +85,8 @@ def cases(tier, seed):
         for sig in pat.signatures_all(d):
             out.append(dict(kind='concrete', cfg=dict(signature=list(sig), start_index=rng.choice((None, 0, 1, 3))), products=(d <= 2)))
     for sig in ([1, -1, 0, 1, -1], [0, 0, 1, -1, 1, 1], [-1, 1, 1, 1, 0, 1, -1], [1, 1, 0, -1, -1, 1, 1, 0]):
-        out.append(dict(kind='concrete', cfg=dict(signature=sig, start_index=None), products=False, sample=3000 if len(sig) > 6 else 0))
+        out.append(dict(kind='concrete', cfg=dict(signature=sig, start_index=None), products=False, sample=3000 if len(sig) > 6 else 0,
+                        cayley_lazy=(len(sig) == 7 or tier == 'thorough')))
     for name in ('2DPGA', '3DPGA', 'STAP'):
         out.append(dict(kind='concrete', cfg=dict(name=name), products=(name != 'STAP')))
     # the one custom basis of the zero-dimensional algebra
@@ -294,6 +295,27 @@ def _run_concrete(desc, V):
             claims.append(Eq(f'cayley-sign[{eI},{eJ}]', s, int(alg.signs[I, J])))
             if s and blade != alg.bin2canon[I ^ J]:
                 claims.append(Fail(f'cayley-blade[{eI},{eJ}]', f'cayley says {cay[eI, eJ]}, product blade is {alg.bin2canon[I ^ J]}'))
+    if d >= 7 and desc.get('cayley_lazy'):
+        # lazily filled sign table (d > 6): the Cayley table is complete all the same, looked at BEFORE any sign was asked for
+        # (a fresh algebra) -- sampled entries against the reference
+        fresh = make_alg(desc['cfg'])
+        cay = fresh.cayley
+        if len(cay) != N * N:
+            claims.append(Fail('cayley:size', f'{len(cay)} entries for d={d}, expected {N * N}', fkey='concrete|cayley-lazy|size'))
+        rng_c = random.Random(d * 17 + 3)
+        names = list(fresh.canon2bin.items())
+        for _ in range(400):
+            (eI, I), (eJ, J) = rng_c.choice(names), rng_c.choice(names)
+            if (eI, eJ) not in cay:
+                claims.append(Fail(f'cayley-lazy[{eI},{eJ}]:missing', f'cayley has no entry for ({eI}, {eJ}) in d={d}', fkey='concrete|cayley-lazy|missing'))
+                break
+            s, blade = _parse_cayley(cay[eI, eJ])
+            sI, mI = km.key2ref[I]
+            sJ, mJ = km.key2ref[J]
+            sK, mK = km.key2ref[I ^ J]
+            claims.append(Eq(f'cayley-lazy-sign[{eI},{eJ}]', s, R.sign(mI, mJ) * sI * sJ * sK))
+            if s and blade != fresh.bin2canon[I ^ J]:
+                claims.append(Fail(f'cayley-lazy-blade[{eI},{eJ}]', f'cayley says {cay[eI, eJ]}, product blade is {fresh.bin2canon[I ^ J]}', fkey='concrete|cayley-lazy|blade'))
     # every spelling of every blade
     if d <= 5:
         for K, name in alg.bin2canon.items():
